@@ -75,6 +75,9 @@ def boundary_cases():
             out.append({"op": "rdiv", "shapes": [list(s)], "args": {"c": 2.5}, "pats": [pat], "boundary": True})
             out.append({"op": "div", "shapes": [list(s), list(s)], "args": {}, "pats": ["generic", pat], "boundary": True})
             out.append({"op": "exp", "shapes": [list(s)], "args": {}, "pats": [pat], "boundary": True})
+        # finite operands far from the origin: the gradient is huge but exact (g * exp(x)), never a clipped or saturated stand-in
+        for op in ("exp", "neg", "sqrt_abs", "tanh", "sigmoid"):
+            if op in cat.OPS: out.append({"op": op, "shapes": [list(s)], "args": {}, "pats": ["large"], "boundary": True})
     return out
 
 def judge_boundary(case):
